@@ -192,6 +192,7 @@ def c20(tier):
     st.st1(P, C)
     # construction by stacking fills every per-dimension attribute of every dimension (the arrays come uninitialised)
     st.fc1(P, C)
+    nl.nl4(P, C)
     return C.finish()
 
 
@@ -261,6 +262,8 @@ def c07(tier):
     kb.sc123(P, C)
     # ... and the gradient's lane budget: an 8-dimensional table loads, its gradient must be refused, not evaluated in 8 lanes
     kb.kb3(P, C)
+    # the rows of the extents block are set up before the fallback for files without EXTENTS writes through them
+    nl.nl4(P, C)
     return C.finish()
 
 
@@ -463,6 +466,7 @@ def c10(tier):
     sp.mm1(P, C)
     # the monotonic fit forms F and R through the same slicemultiply / flatten index arithmetic
     gw.iw1(P, C)
+    ge.ge9(P, C)
     return C.finish()
 
 
@@ -629,6 +633,7 @@ def c17(tier):
     ge.ge8(P, C)
     # the C wrapper defines *result on every exit (a caller re-using its variable must not see a stale grid)
     cw.cw8(P, C)
+    ge.ge9(P, C)
     return C.finish()
 
 
@@ -655,6 +660,8 @@ def c09(tier):
     C.extra["units"] = sorted(P.units.keys())
     C.extra["not_decided"] = ["optimality", "polynomial reproduction", "index arithmetic of box/slicemultiply/kronecker_product", "divided_diffs formula"]
     st.st1(P, C, only=('fit',))
+    # the mode products un-flatten the column number with the axis order they flattened it with (three and more dimensions)
+    ge.ge9(P, C)
     return C.finish()
 
 
